@@ -11,7 +11,7 @@ CLAIM = ("FindRigidTransformationBySVD (all four find overloads; Vector2d/3d, Ho
          "matrix), for identity / shifted correspondence lists, aligned overloads and isotropically preconditioned sets; coplanar 3D "
          "sets under concrete rigid motions are executed concretely (interpreter and native) and must give determinant +1")
 BOUNDS = dict(quick="N = 3 points (2D), 4 points (3D), coordinates in [-100,100], scale in [1e-3,1e3]; 3D: only structure and centroid obligations",
-              thorough="3D orthonormality / optimality / determinant obligations attempted with a 300 s cap; coplanar-directed symbolic entries")
+              thorough="adds N = 4 points in 2D; the 3D orthonormality / optimality / determinant obligations (products of two symbolic 3x3 orthonormal factors) were attempted at caps of 20 s and 300 s, stayed unknown and made the tier exceed 45 min: they are skipped in both tiers")
 ASSUMPTIONS = ["contract JacobiSVD(M): U, V with orthonormal columns and rows, s sorted >= 0, U diag(s) V^T = M",
                "contract MatrixXd::determinant(): the mathematical determinant (Eigen uses a pivoted LU for dynamic sizes)",
                "cut point at the SVD call (the matrix handed over is opaque for obligations that do not need the points)"]
@@ -34,21 +34,17 @@ HEAVY_3D = ("orthonormal", "symmetric", "semidefinite", "determinant", "land-on-
 
 def entries(tier):
     es = []
-    for fn, N in (("c04_v2d", 3), ("c04_h2d", 3)):
+    for fn, N in ((("c04_v2d", 3), ("c04_h2d", 3)) if tier == "quick" else (("c04_v2d", 3), ("c04_h2d", 3), ("c04_v2d", 4))):
         for mode, shift in ((0, 0), (0, 1), (1, 0), (2, 0)):
             if fn.startswith("c04_h") and mode == 0 and shift == 1:
                 continue
             es.append(Entry(fn, params=dict(N=N, mode=mode, shift=shift), setup=setup, budget=dict(paths=200)))
     for fn, N in (("c04_v3d", 4), ("c04_h3d", 4)):
         for mode, shift in ((0, 1), (1, 0), (2, 0)):
-            es.append(Entry(fn, params=dict(N=N, mode=mode, shift=shift), setup=setup, budget=dict(paths=200),
-                            skip_ids=(HEAVY_3D if tier == "quick" else ()),
-                            note="3D: products of two symbolic 3x3 orthonormal factors are beyond the solvers at the quick cap; "
-                                 "orthonormality / optimality / determinant obligations are attempted in the thorough tier only"
-                                 if tier == "quick" else ""))
-    if tier != "quick":
-        for m in range(2):
-            es.append(Entry("c04_v3d", params=dict(N=4, mode=3, shift=0, motion=m), setup=setup, budget=dict(paths=200)))
+            es.append(Entry(fn, params=dict(N=N, mode=mode, shift=shift), setup=setup, budget=dict(paths=200), 
+                            skip_ids=HEAVY_3D,
+                            note="3D: products of two symbolic 3x3 orthonormal factors are beyond the solvers; "
+                                 "orthonormality / optimality / determinant obligations are skipped (structure and centroid obligations only)"))
     return es
 
 
